@@ -173,3 +173,22 @@ def fam_contention():
 
 
 SCENARIOS["fam_contention"] = fam_contention
+
+
+try:
+    from harness.scenarios_ops import SCENARIOS as _S_ops
+    SCENARIOS.update(_S_ops)
+except Exception:  # pragma: no cover
+    pass
+
+try:
+    from harness.scenarios_svc import SCENARIOS as _S_svc
+    SCENARIOS.update(_S_svc)
+except Exception:  # pragma: no cover
+    pass
+
+try:
+    from harness.scenarios_data import SCENARIOS as _S_data
+    SCENARIOS.update(_S_data)
+except Exception:  # pragma: no cover
+    pass
